@@ -16,7 +16,7 @@ static void vh_begin(void) {}
 static const char *vh_step(const vh_step_t *st, vh_sb *ret, vh_sb *state) { (void) st; (void) ret; (void) state; return NULL; }
 static void vh_end(void) {}
 
-#define MAXOBJ 512
+#define MAXOBJ 700
 typedef struct { int null; unsigned char *k, *v; size_t kn, vn; int slack; char ktok[256], vtok[256]; } uobj_t;
 static uobj_t U[MAXOBJ];
 static spif_obj_t O[MAXOBJ];
